@@ -64,7 +64,8 @@ Decimals == { [val |-> <<"1.5 ", First(UnitNames("h"))>>, pred |-> Minutes(90), 
 \* out of the documented forms: a warning and nothing from the accessor, never a wrong number
 BadTimes == { [val |-> <<x>>, pred |-> None, number |-> FALSE] :
               x \in {"soon", "1 lightyear", "-5", "inf", "NaN", "4294967296", "99999999999 min", "71582789h", "1h4294967295m", "-1h",
-                     "1h30", "h", "1.5.5 h", "1 h 30", "5 m in", "1e400", "+", "4294967295h", "71582789h1m"} }
+                     "1h30", "h", "1.5.5 h", "1 h 30", "5 m in", "1e400", "+", "4294967295h", "71582789h1m",
+                     "30m1h", "5m5m", "1h20m10m", "10m2h5m", "1h2h", "1m1h1m", "m", "hm", "1hm"} }
 \* a sign is not part of the documented number-unit form, even when the total stays positive
 SignedTimes == { [val |-> v, pred |-> None, number |-> FALSE] :
                  v \in { <<"1", First(UnitNames("h")), " -30", First(UnitNames("m"))>>, <<"1 ", First(UnitNames("d")), " -12 ", First(UnitNames("h"))>>,
@@ -116,7 +117,9 @@ LocaleShapes ==
     [val |-> <<"es_es">>, yaml |-> "string", pred |-> [t |-> "locale", lang |-> "es", dial |-> "es"]],
     [val |-> <<"eng">>, yaml |-> "string", pred |-> None], [val |-> <<"en-GB">>, yaml |-> "string", pred |-> None],
     [val |-> <<"en_GBR">>, yaml |-> "string", pred |-> None], [val |-> <<"e1">>, yaml |-> "string", pred |-> None],
-    [val |-> <<"en_">>, yaml |-> "string", pred |-> None], [val |-> <<"12">>, yaml |-> "number", pred |-> None] }
+    [val |-> <<"en_">>, yaml |-> "string", pred |-> None], [val |-> <<"12">>, yaml |-> "number", pred |-> None],
+    [val |-> <<"en_GB_posix">>, yaml |-> "string", pred |-> None], [val |-> <<"pt_BR_">>, yaml |-> "string", pred |-> None],
+    [val |-> <<"_GB">>, yaml |-> "string", pred |-> None], [val |-> <<"en__GB">>, yaml |-> "string", pred |-> None] }
 
 Init == stage = 0 /\ key = "" /\ val = <<>> /\ style = "" /\ pred = None
 \* style: "old" = `>> key: value` (always a string), "yaml" = front matter (string quoted, number bare, raw as written)
